@@ -9,8 +9,8 @@ import (
 	"context"
 	"database/sql"
 	"database/sql/driver"
-	"io"
 	"fmt"
+	"io"
 	"math/rand"
 	"reflect"
 	"sort"
